@@ -15,6 +15,12 @@ CHECKS = {
     text='Machine-checked proof that the model of LoggerImpl (issue vector + three index vectors, operations exactly as in logger.cpp) is coherent after every history whose removals are tail removals, that removeError keeps coherence iff it erases the last issue, and that coherence gives the count identity, in-order enumeration by error(i)/warning(i)/message(i) and null past the end; kernel decide over tables regenerated from issue.h/issue.cpp/enums.* shows every ReferenceRule and element-type value has a row.  Tie: hook H1 reports every logger operation of every traced Parser/Validator/Importer/Printer/Analyser/Annotator call on the repository test resources (plus truncated/mutated copies); the model replays the trace and all observers are compared; each issue is audited and each failing result must be explained on the implementation.',
     note='Trusted: Lean kernel; hook H1 and hx_logger.cpp; regex table extractor gen/tables.py.  The service failure paths themselves are not modelled in Lean (the explained-failure clause is decided by the implementation-side oracle on the traced calls only); issues are abstracted to their level in the model.  One known finding (assignAllIds(null)).',
     design='4 C15'),
+ 'C18': dict(
+    engine='equiv',
+    technique='Lean 4 proof: visited-list DFS = reachability; cache refinement for every query history under an injective unordered-pair key; kernel-checked collision of the superseded Cantor key; tied by differential graph runs and arena placement of real objects',
+    text='Machine-checked proof that the model of haveEquivalentVariables (DFS with a tested-variables list, fuel n+1) decides reachability in the equivalence graph, that hasEquivalentVariable(v,true)/areEquivalentVariables are exactly connectivity, and that the cached AnalyserModel query returns the uncached answer for every query history, order and repetition and for every injective address map (the pair key identifies only a pair with its mirror image).  The superseded 64-bit Cantor key is refuted by a kernel-evaluated collision of four aligned user-space addresses and the wrong answer it yields.  Tie: the real key function on thousands of word pairs, generated graphs with all ordered pairs queried in shuffled order with repetitions against the model and a union-find oracle, and the collision witness replayed on real Variable objects placed at chosen addresses by an arena operator new.',
+    note='Trusted: Lean kernel; hx_equiv.cpp (private-member access, arena allocator) and the driver; symmetry/closure of equivalence lists is an assumption discharged by C09; which addresses malloc returns is not modelled (theorem is for all injective address maps); staleness of the cache after model edits is outside the claim.',
+    design='4 C18'),
 }
 
 def manifest():
@@ -43,7 +49,8 @@ def manifest():
                    enable='each check configures /repo into a scratch dir with -DCMAKE_CXX_FLAGS=-DLIBCELLML_VERIF (vlib/common.py: build_lib) and links harness/hx_*.cpp against the static library',
                    baseline_off_cmd='python3 tools/baseline_off.py',
                    source_commits=hooks['source_commits'], add_only=True),
-        engines=[dict(name='logger', path='harness/hx_logger.cpp + lean/Cellml/Engine/Logger.lean', serves_properties=['C15'], kind_free_text='trace replay: hook-traced logger operations of real service calls vs Lean logger model'),
+        engines=[dict(name='equiv', path='harness/hx_equiv.cpp + lean/Cellml/Engine/Equiv.lean', serves_properties=['C18'], kind_free_text='differential: real equivalence queries/cache key vs Lean model; arena placement of objects'),
+                 dict(name='logger', path='harness/hx_logger.cpp + lean/Cellml/Engine/Logger.lean', serves_properties=['C15'], kind_free_text='trace replay: hook-traced logger operations of real service calls vs Lean logger model'),
                  dict(name='num', path='harness/hx_num.cpp + lean/Cellml/Engine/Num.lean', serves_properties=['C16'], kind_free_text='differential: real recognisers vs Lean model, exhaustive short strings')],
         checks=checks,
         notes='Technique family: machine-checked proof in Lean 4.  ./check Cxx = regenerate tables from /repo, lake build of Props/Cxx.lean (kernel), axiom audit, rebuild of /repo + harness, correspondence run, implementation-side oracle.  See DESIGN.md.',
